@@ -93,6 +93,7 @@ type Field struct {
 type Branch struct {
 	Disc int
 	Rec  *Record // inline struct or message
+	Dep  bool    // the branch carries [deprecated("...")] (a union branch stays on the wire; only message fields are dropped)
 }
 
 type Record struct {
@@ -195,7 +196,14 @@ func RenderRecord(b *strings.Builder, r *Record, ind string) {
 				fmt.Fprintf(b, "%s\t//[tag(%s)]\n", ind, f.Tag)
 			}
 			if f.Deprecated {
-				fmt.Fprintf(b, "%s\t[deprecated(\"old\")]\n", ind)
+				// an empty reason is still a deprecation; a trailing comment must not carry it over to the next field
+				reason := "old"
+				if len(r.Name)%2 == 1 {
+					reason = ""
+				}
+				fmt.Fprintf(b, "%s\t[deprecated(\"%s\")]\n", ind, reason)
+				fmt.Fprintf(b, "%s\t%d -> %s %s; // no longer sent\n", ind, f.Index, f.Type.String(), f.Name)
+				continue
 			}
 			fmt.Fprintf(b, "%s\t%d -> %s %s;\n", ind, f.Index, f.Type.String(), f.Name)
 		}
@@ -203,6 +211,9 @@ func RenderRecord(b *strings.Builder, r *Record, ind string) {
 	case Union:
 		fmt.Fprintf(b, "%sunion %s {\n", ind, r.Name)
 		for _, br := range r.Branches {
+			if br.Dep {
+				fmt.Fprintf(b, "%s\t[deprecated(\"branch on its way out\")]\n", ind)
+			}
 			fmt.Fprintf(b, "%s\t%d -> ", ind, br.Disc)
 			RenderRecord(b, br.Rec, ind+"\t")
 		}
